@@ -44,6 +44,7 @@ def Bounded : G → Prop
   | .setOfT _ => False
   | .allF tmpl => Bounded tmpl
   | .setOfF tmpl => Bounded tmpl
+  | .floats lo hi _ => XF.okPair lo hi = true    -- `random.uniform` is never called with an infinite end
   | _ => True
 
 /-- One `next()` finished: a value and a `Bounded` successor that needs no more fuel, or the end. -/
@@ -91,7 +92,7 @@ theorem zipNil_tuple : ∀ v, Outs .zipNil v → ∃ xs, v = .tuple xs := by
 theorem bounded_anys : Bounded anys := by
   simp only [anys, Bounded]
   and_intros
-  all_goals first | trivial | exact zipNil_tuple | exact zipCons_tuple _ _
+  all_goals first | exact zipNil_tuple | exact zipCons_tuple _ _ | (simp [XF.okPair]; done) | trivial
 
 theorem hashable_anys {v : GVal} (h : Outs anys v) : hashable v = true := by
   rcases outs_anys h with ⟨a, rfl⟩ | ⟨cs, rfl⟩ | ⟨k, rfl⟩ <;> simp [hashable]
@@ -123,10 +124,18 @@ theorem pull_bounded : ∀ fuel, StepBounded fuel := by
         · split <;> simp [Bounded]
         · split <;> simp [cost]
     | floats lo hi ph =>
+      simp only [Bounded] at hb
       match ph with
-      | 0 => exact Or.inl ⟨.flt lo, .floats lo hi 1, t, by simp [pull], by simp [Bounded], by simp [cost]⟩
-      | 1 => exact Or.inl ⟨.flt hi, .floats lo hi 2, t, by simp [pull], by simp [Bounded], by simp [cost]⟩
-      | k + 2 => exact Or.inl ⟨.flt (t.uniform lo hi).1, .floats lo hi 2, (t.uniform lo hi).2, by simp [pull], by simp [Bounded], by simp [cost]⟩
+      | 0 => exact Or.inl ⟨lo.val, .floats lo hi 1, t, by simp [pull], by simpa [Bounded] using hb, by simp [cost]⟩
+      | 1 => exact Or.inl ⟨hi.val, .floats lo hi 2, t, by simp [pull], by simpa [Bounded] using hb, by simp [cost]⟩
+      | k + 2 =>
+        by_cases hlt : XF.lt lo hi = true
+        · cases lo with
+          | fin a => cases hi with
+            | fin b => exact Or.inl ⟨.flt (t.uniform a b).1, .floats (.fin a) (.fin b) 2, (t.uniform a b).2, by simp [pull, hlt], by simpa [Bounded] using hb, by simp [cost]⟩
+            | inf n => simp [XF.okPair, hlt] at hb
+          | inf m => simp [XF.okPair, hlt] at hb
+        · exact Or.inl ⟨lo.val, .floats lo hi 2, t, by simp [pull, hlt], by simpa [Bounded] using hb, by simp [cost]⟩
     | strings =>
       simp only [Done, pull]
       exact Or.inl ⟨_, _, _, rfl, by simp [Bounded], by simp [cost]⟩
@@ -204,6 +213,7 @@ theorem pull_bounded : ∀ fuel, StepBounded fuel := by
           | .dt _, hp => exact Or.inr ⟨t1, by simp [pull, hp]⟩
           | .uuid _, hp => exact Or.inr ⟨t1, by simp [pull, hp]⟩
           | .cplx _ _, hp => exact Or.inr ⟨t1, by simp [pull, hp]⟩
+          | .inf _, hp => exact Or.inr ⟨t1, by simp [pull, hp]⟩
         · exact Or.inr ⟨t1, by simp [pull, hp]⟩
     | map f g =>
       simp only [Bounded] at hb
